@@ -81,14 +81,15 @@ pub fn coq_bool(b: bool) -> &'static str {
 /// object (same information) for the exact-rational oracles and the evidence samples.
 pub struct Sink {
     pub dir: String,
-    pub module: String, // Coq module with `run`
+    pub module: String, // Coq file Run/<module>.v
+    pub runner: String, // Coq module inside it that has `run`
     pub shard: usize,
     pub coq: Vec<String>,
     pub json: Vec<String>,
 }
 impl Sink {
     pub fn new(dir: &str, module: &str, shard: usize) -> Self {
-        Sink { dir: dir.to_string(), module: module.to_string(), shard, coq: vec![], json: vec![] }
+        Sink { dir: dir.to_string(), module: module.to_string(), runner: module.to_string(), shard, coq: vec![], json: vec![] }
     }
     pub fn push(&mut self, coq: String, json: String) {
         self.coq.push(coq);
@@ -108,7 +109,7 @@ impl Sink {
                 writeln!(s, "  {}{}", c, if i + 1 < chunk.len() { ";" } else { "" }).unwrap();
             }
             writeln!(s, "].").unwrap();
-            writeln!(s, "Eval vm_compute in ({}.run cases).", self.module).unwrap();
+            writeln!(s, "Eval vm_compute in ({}.run cases).", self.runner).unwrap();
             std::fs::write(format!("{}/cases_{}.v", self.dir, k), s).unwrap();
             k += 1;
         }
